@@ -849,7 +849,10 @@ class Fn:
                 lo = e.slice.lower
                 if e.slice.upper is None and e.slice.step is None and isinstance(lo, ast.Constant) and type(lo.value) is int and lo.value >= 0:
                     return '(py_slice_from %s %d)' % (X(e.value, cap=False), lo.value)
-                self.bad(e, 'slice other than [k:] with a literal k >= 0')
+                up = e.slice.upper
+                if lo is None and e.slice.step is None and isinstance(up, ast.Constant) and type(up.value) is int and up.value >= 0:
+                    return '(py_slice_to %s %d)' % (X(e.value, cap=False), up.value)
+                self.bad(e, 'slice other than [k:] / [:k] with a literal k >= 0')
             if isinstance(e.slice, ast.Constant) and type(e.slice.value) is int and e.slice.value >= 0:
                 if self.self_tuple and isinstance(e.value, ast.Name) and e.value.id == self.self_tuple[0] \
                         and env.get(e.value.id) and env[e.value.id].coq == 'a0':  # self[i] in a method of a tuple subclass
@@ -949,11 +952,12 @@ class Fn:
 # ------------------------------------------------------------------------------------------------------------
 _LN = 'exactly_lib.impls.types.string_transformer.impl.filter.line_nums.'
 _IV = 'exactly_lib.util.interval.'
+_EN = 'exactly_lib.impls.instructions.multi_phase.environ.'
 _IP = 'exactly_lib.impls.instructions.multi_phase.utils.'
 _TR = 'exactly_lib.test_case.result.'
 _PS = 'exactly_lib.type_val_deps.types.program.sdv.'
 TARGETS = {
-    'LineNums': dict(prop='C13', world=[_LN + 'range_expr', _LN + 'range_merge', _LN + 'transformers'], opaque=[_LN + 'sources'], roots=[
+    'LineNums': dict(prop='C13 C05', world=[_LN + 'range_expr', _LN + 'range_merge', _LN + 'transformers'], opaque=[_LN + 'sources'], roots=[
         (_LN + 'range_merge', q) for q in ('_is_valid_segment', '_can_be_one', '_merge_segments', '_merge_head_to',
                                            '_merge_tail_from', 'Partitioning', 'MergedRanges', 'MergedRanges.empty',
                                            'MergedRanges.everything', 'MergedRanges.is_everything', 'merge',
@@ -1016,6 +1020,21 @@ TARGETS = {
         ('exactly_lib.execution.impl.single_instruction_executor', '.error_message')]),
     'SymbolSyntax': dict(prop='C09', world=[], roots=[('exactly_lib.symbol.symbol_syntax', 'SYMBOL_REFERENCE_BEGIN'),
                                                       ('exactly_lib.symbol.symbol_syntax', 'SYMBOL_REFERENCE_END')]),
+    'FilesDepth': dict(prop='C15', world=['exactly_lib.impls.types.files_matcher.models'], roots=[
+        ('exactly_lib.impls.types.files_matcher.models', q) for q in (
+            '_FilesGeneratorForRecursive', '_FilesGeneratorForRecursive._is_within_min_depth_limit',
+            '_FilesGeneratorForRecursive._is_within_max_depth_limit', '_FilesGeneratorForRecursive._is_at_max_depth_limit')]),
+    'Settings': dict(prop='C11', world=[_EN + 'impl', 'exactly_lib.test_case.phases.instruction_settings',
+                                        'exactly_lib.test_case.phases.setup.settings_builder'], roots=[
+        ('exactly_lib.test_case.phases.instruction_settings', q) for q in (
+            'InstructionSettings', 'InstructionSettings.timeout_in_seconds', 'InstructionSettings.set_timeout',
+            'InstructionSettings.environ', 'InstructionSettings.set_environ', '.default_environ_getter')] + [
+        ('exactly_lib.test_case.phases.setup.settings_builder', 'SetupSettingsBuilder'),
+        ('exactly_lib.test_case.phases.setup.settings_builder', 'SetupSettingsBuilder.new_empty'),
+        ('exactly_lib.test_case.phases.setup.settings_builder', '.environ'),
+        (_EN + 'impl', 'Phase'), (_EN + 'impl', 'TheInstructionEmbryo'), (_EN + 'impl', 'TheInstructionEmbryo._resolve_applier'),
+        (_EN + 'impl', 'TheInstructionEmbryo._resolve_applier_factory')]),
+    'ActSource': dict(prop='C07', world=[], roots=[('exactly_lib.processing.parse.act_phase_source_parser', '_un_escape_at_beginning_of_line')]),
     'Timeout': dict(prop='C19', world=[], roots=[('exactly_lib.definitions.os_proc_env', 'TIMEOUT__DEFAULT')]),
 }
 
